@@ -82,10 +82,25 @@ def engines():
     return "\n".join(rows)
 
 
+def theorems():
+    props = {}
+    for f in sorted(glob.glob(os.path.join(V, "engines", "*.json"))):
+        e = json.load(open(f))
+        for pid, ts in e.get("theorems", {}).items():
+            props.setdefault(pid, []).append((e["name"], ts))
+    out = []
+    for pid in sorted(props):
+        out.append("**%s**" % pid)
+        for name, ts in props[pid]:
+            out.append("- engine `%s` (%d): %s" % (name, len(ts), ", ".join("`%s`" % t for t in ts)))
+        out.append("")
+    return "\n".join(out)
+
+
 def main():
     p = os.path.join(V, "DESIGN.md")
     s = open(p).read()
-    for name, fn in (("findings", findings), ("seeded", seeded), ("engines", engines)):
+    for name, fn in (("findings", findings), ("seeded", seeded), ("engines", engines), ("theorems", theorems)):
         b, e = "<!-- BEGIN:%s -->" % name, "<!-- END:%s -->" % name
         if b in s and e in s:
             i, j = s.index(b) + len(b), s.index(e)
